@@ -5,6 +5,7 @@
                                        fails with it and passes without it (dir holds patch.diff, demo.py, meta.json)
   tools/seeded.py run <name> [PROP..]  apply seeded/<name>/patch.diff to /repo, run quick checks (default: the
                                        property in meta.json), restore /repo, print which checks fired
+  tools/seeded.py irun <name> [PROP..] same against a private worktree of /repo HEAD (PYTHONPATH), /repo untouched
   tools/seeded.py all                  run every seeded change against its property
 """
 import json
@@ -79,11 +80,40 @@ def run(name, props=None):
     return res
 
 
+def run_isolated(name, props=None):
+    """Like run(), but against a private worktree of /repo HEAD (PYTHONPATH), leaving /repo alone: usable while
+    /repo is busy, and several at a time."""
+    d = os.path.join(SEEDED, name)
+    meta = json.load(open(os.path.join(d, "meta.json")))
+    props = props or [meta["property"]]
+    wt = tempfile.mkdtemp(prefix=f"seedrun_{name}_", dir="/dev/shm")
+    os.rmdir(wt)
+    assert sh(f"git -C /repo worktree add -q --detach {wt} HEAD").returncode == 0
+    res = {}
+    try:
+        ap = sh(f"git -C {wt} apply {os.path.join(d, 'patch.diff')}")
+        if ap.returncode != 0:
+            print(f"{name}: patch does not apply: {ap.stderr[-200:]}")
+            return None
+        for p in props:
+            r = subprocess.run([os.path.join(HERE, "check"), p, "--tier", os.environ.get("VERIF_TIER", "quick")],
+                               capture_output=True, text=True, env=dict(os.environ, PYTHONPATH=wt))
+            keys = sorted({l.split("key=")[1].split(" ::")[0] for l in r.stdout.splitlines() if l.startswith("  key=")})
+            res[p] = {"exit": r.returncode, "keys": keys}
+            print(f"{name}: {p} exit={r.returncode} {keys[:5]}", flush=True)
+    finally:
+        sh(f"git -C /repo worktree remove --force {wt}")
+        shutil.rmtree(wt, ignore_errors=True)
+    return res
+
+
 if __name__ == "__main__":
     if sys.argv[1] == "confirm":
         print(json.dumps(confirm(os.path.abspath(sys.argv[2])), indent=1))
     elif sys.argv[1] == "run":
         run(sys.argv[2], [p.upper() for p in sys.argv[3:]] or None)
+    elif sys.argv[1] == "irun":
+        run_isolated(sys.argv[2], [p.upper() for p in sys.argv[3:]] or None)
     elif sys.argv[1] == "all":
         for name in sorted(os.listdir(SEEDED)):
             if os.path.isdir(os.path.join(SEEDED, name)):
